@@ -535,7 +535,7 @@ fn history(rng: &mut Rng, rep: &mut Report, case_no: u64, len: usize) {
 
 pub fn run(args: &Args) -> i32 {
     let mut rep = Report::new(args);
-    let n = args.count(3200, 200_000);
+    let n = args.count(160_000, 2_400_000);
     let range: Vec<u64> = match args.case {
         Some(c) => vec![c],
         None => (0..n).collect(),
